@@ -395,7 +395,7 @@ func (p *PreparedStatementFieldTracker) ParamsTrackHandler(ctx context.Context, 
 		return err
 	}
 
-	setting, ok := items[p.paramsCounter]
+	setting, ok := encryptor.GetPlaceholderSetting(items, p.paramsCounter)
 	if ok {
 		newFieldType, ok := mapEncryptedTypeToField(setting.GetDBDataTypeID())
 		if ok {
